@@ -7,6 +7,7 @@
 // query, {get what=sub} runs it; memverif records the arguments of FindUsers / FindTopics.
 // The answers are the text printed by harness/runner/r_c19.ml from coq/Sys/FndSearchC19.v.
 //
+//   CFG <letters>             first request of a process: which of e(mail) t(el) b(asic) index (add_to_tags)
 //   O  <cc> <term>            -> O <email.PreCheck> <tel.PreCheck> <basic.AsTag> <other authenticators' AsTag>
 //                                (each rewriter asked DIRECTLY, not through rewriteTag: the oracle
 //                                 answers which instantiate the model's Section variables vals / auths)
@@ -42,19 +43,28 @@ import (
 var c19fndOnce sync.Once
 var c19fndSeq int
 
+// which rewriters are configured to index (add_to_tags) in this process: e = email validator,
+// t = tel validator, b = basic authenticator.  Set by the request "CFG <letters>" before the
+// first other request (auth/basic can be initialised once per process).
+var c19fndCfg = "etb"
+
 func c19fndSetup() {
 	vInitServer(nil)
 	c19fndOnce.Do(func() {
 		globals.validators = map[string]credValidator{
-			"email": {addToTags: true},
-			"tel":   {addToTags: true},
+			"email": {addToTags: strings.Contains(c19fndCfg, "e")},
+			"tel":   {addToTags: strings.Contains(c19fndCfg, "t")},
 		}
 		basic := store.Store.GetAuthHandler("basic")
 		if basic == nil {
 			panic("c19fnd: basic authenticator is not registered")
 		}
 		if !basic.IsInitialized() {
-			if err := basic.Init(json.RawMessage(`{"add_to_tags": true}`), "basic"); err != nil {
+			conf := `{"add_to_tags": false}`
+			if strings.Contains(c19fndCfg, "b") {
+				conf = `{"add_to_tags": true}`
+			}
+			if err := basic.Init(json.RawMessage(conf), "basic"); err != nil {
 				panic("c19fnd: basic init: " + err.Error())
 			}
 		}
@@ -66,7 +76,12 @@ func c19fndSetup() {
 	})
 }
 
+// country code field of a request: "-" = none; a suffix "@cfg" only names the configuration of
+// the process that serves the request (the model's oracle key)
 func c19fndCC(s string) string {
+	if i := strings.Index(s, "@"); i >= 0 {
+		s = s[:i]
+	}
 	if s == "-" {
 		return ""
 	}
@@ -395,6 +410,9 @@ func c19fndRun(w []string) string {
 func init() {
 	verifHandlers["c19f"] = func(w []string) string {
 		switch {
+		case len(w) == 2 && w[0] == "CFG":
+			c19fndCfg = w[1]
+			return "CFG"
 		case len(w) == 3 && w[0] == "O":
 			c19fndSetup()
 			return c19fndOracle(c19fndCC(w[1]), string(vUnhex(w[2])))
